@@ -73,8 +73,8 @@ extern "C" void model_fixupEPSquare(Position& pos) {
     fixCalls++;
 }
 
-alignas(64) static unsigned char qmem[sizeof(Position)];
-alignas(16) static unsigned char mlmem[sizeof(MoveList)];
+static RawBox<Position> qBox;
+static RawBox<MoveList> mlBox;
 
 // Build P (accepted, ep already fixed up), choose a legal move, produce Q with the real makeMove + fix-up.
 static Position& setup(int& from, int& to, int& prom, UndoInfo& uiTrue) {
@@ -88,7 +88,7 @@ static Position& setup(int& from, int& to, int& prom, UndoInfo& uiTrue) {
     play(gP, from, to, prom, epCap, castleMove, gAfter);
     gAfter.castle = castleAfter(gP, from, to); gAfter.ep = epAfter(gP, from, to);
     Position& p = buildPos(gP);
-    Position& q = *reinterpret_cast<Position*>(qmem);
+    Position& q = qBox.obj;
     (PositionBase&)q = (PositionBase&)p; q.nnEval = nullptr;
     Move m(Square(from), Square(to), prom);
     UndoInfo ui;
@@ -106,7 +106,7 @@ void h_contains(void) {
     Position& q = setup(from, to, prom, ui);
     ASSUME(!q.getEpSquare().isValid());                   // with an ep square genMoves() takes the double-push shortcut instead
     nrr = 0; rrOverflow = false;
-    MoveList& ml = *reinterpret_cast<MoveList*>(mlmem); ml.size = 0;
+    MoveList& ml = mlBox.obj; ml.size = 0;
     RevMoveGen::genMovesNoUndoInfo(q, ml);               // real
     verif_observe(nrr);
     CHECK(!rrOverflow, "bounded number of helper calls");
@@ -140,7 +140,7 @@ void h_rawsound(void) {
     ASSUME(q.ep == -1);
     Position& pos = buildPos(q);
     nrr = 0; rrOverflow = false;
-    MoveList& ml = *reinterpret_cast<MoveList*>(mlmem); ml.size = 0;
+    MoveList& ml = mlBox.obj; ml.size = 0;
     RevMoveGen::genMovesNoUndoInfo(pos, ml);             // real
     verif_observe(nrr);
     CHECK(!rrOverflow, "bounded number of helper calls");
